@@ -2,21 +2,25 @@ import PwVerif.Lemmas.PoolK
 /-!
 # C08 — Pool failure reports are sound
 
-Same model and configuration as C07 (`Plain`: retry on, results returned, no `enqueue_fn`).
+Same model as C07. `C08_partial_genuine` / `C08_poolerror_partial` hold for `Retrying` (retry on, results
+returned, **any** user `enqueue_fn`); `C08_sound` / `C08_survivor` for `Plain` (no `enqueue_fn`: a function
+that refuses an input for every live worker ends the run with PoolError although nobody died - outside the
+property's premise "every worker has died or been closed" only in the sense that the user asked for it).
+The retry-off clause is Props/C08NoRetry.lean.
 -/
 namespace PwVerif.C08
 open PwVerif.Pool
 
 /-- **partial results are genuine.** Whatever the outcome, the results collected so far contain every
     input at most as often as it was given - in particular `PoolError.partial_results`. -/
-theorem C08_partial_genuine (c : Cfg) (hc : Plain c) (pick : List Nat → Option Nat) (hp : PickOK pick)
+theorem C08_partial_genuine (c : Cfg) (hc : Retrying c) (pick : List Nat → Option Nat) (hp : PickOK pick)
     (n : Nat) (src : List Inp) (pre evs : List Ev) (i : Inp) :
     (runEvents c pick (start c pick n src pre) evs).ret.count i ≤ src.count i := by
   have := (inv_runEvents hc hp evs _ (inv_start hc hp n src pre)).cons i
   simp only [cnt] at this
   omega
 
-theorem C08_poolerror_partial (c : Cfg) (hc : Plain c) (pick : List Nat → Option Nat) (hp : PickOK pick)
+theorem C08_poolerror_partial (c : Cfg) (hc : Retrying c) (pick : List Nat → Option Nat) (hp : PickOK pick)
     (n : Nat) (src : List Inp) (pre evs : List Ev) (part : List Inp)
     (h : outcome (runEvents c pick (start c pick n src pre) evs) = .poolError part) :
     ∀ i, part.count i ≤ src.count i := by
@@ -49,7 +53,7 @@ theorem C08_sound (c : Cfg) (hc : Plain c) (pick : List Nat → Option Nat) (hp 
     (n : Nat) (src : List Inp) (pre evs : List Ev) (part : List Inp)
     (h : outcome (runEvents c pick (start c pick n src pre) evs) = .poolError part) :
     ∀ x ∈ (runEvents c pick (start c pick n src pre) evs).ws, x.closed = true := by
-  have hinv := inv_runEvents hc hp evs _ (inv_start hc hp n src pre)
+  have hinv := inv_runEvents hc.toRetrying hp evs _ (inv_start hc.toRetrying hp n src pre)
   have hK := K_runEvents hc hp ht evs _ (K_start hc hp n src pre)
   generalize runEvents c pick (start c pick n src pre) evs = s at h hinv hK
   unfold outcome at h
